@@ -4,7 +4,7 @@ from vf.ch import Ob
 
 ASSUMPTIONS = PRE_ASSUME + ["comment text is re-spaced around , ( ) = by the pre-processor: compared blank-free (the property does not promise verbatim comment text)"]
 OUTSIDE = ["quotes inside comment text", "comment markers inside literals (C07)", "more than one comment per script in one obligation"]
-KINDS = ["line_dash", "line_hash", "line_block", "trail_dash", "trail_block", "multi_block", "multi_block_banner", "trail_dash_glued"]
+KINDS = ["line_dash", "line_hash", "line_block", "trail_dash", "trail_block", "multi_block", "multi_block_banner", "trail_dash_glued", "line_block_trailing_blank"]
 
 
 def obligations(tier):
@@ -12,4 +12,7 @@ def obligations(tier):
     return [Ob(f"C08.line/{k}", "pre", "c_comment", {"VF_KIND": i}, t, FN_PRE,
                "one comment of this kind at any of the 7 line positions of a 2-statement / 6-line script (symbolic), text any of 12 catalogued "
                "texts incl. ';'-terminated, keyword-leading (use/insert/delete/alter/GO/CREATE), commas and parentheses (symbolic index)")
-            for i, k in enumerate(KINDS)]
+            for i, k in enumerate(KINDS)] + [
+        Ob(f"C08.line/{k}/quoted-lines", "pre", "c_comment", {"VF_KIND": i, "VF_BASE": 1}, t, FN_PRE,
+           "as above on a script whose lines carry quoted literals containing the other kind of quote (DEFAULT '\"', COMMENT \"it's\")")
+        for i, k in enumerate(KINDS) if k in ("trail_dash", "trail_dash_glued", "trail_block")]
